@@ -55,6 +55,13 @@ Definition mk_frame (chunk stale : bytes) : bytes :=
   firstn total_frame_size
     (le_enc 4 (N.of_nat (length chunk)) ++ chunk ++ skipn (data_len_size + length chunk) stale).
 
+(* what the underlying transport did with one conn.Write(sealedFrame):
+   TOk      it returned (len(sealedFrame), nil)
+   TErr m   it returned (m, err) with err != nil: the first m bytes of the sealed frame (0: nothing,
+            sealed_frame_size: all of it) reached the wire before a write-deadline timeout, a
+            temporary error, a broken pipe, ... *)
+Inductive tout := TOk | TErr (m : nat).
+
 Section Stream.
 Variables key cipher : Type.
 Variable seal : key -> bytes -> bytes -> cipher.          (* key, nonce, plaintext *)
@@ -74,8 +81,9 @@ Record wres := {
 
 (* the loop  for 0 < len(data) { chunk; frame; Seal; incrNonce; conn.Write; n += len(chunk) }
    fuel = number of iterations available (len(data)+1 suffices: every iteration eats >= 1 byte).
-   conn.Write is assumed to succeed (a failing conn ends the session; the nonce has already
-   moved on, see Props C16_nonce_unique). *)
+   Here conn.Write succeeds; [write_loop_t] below is the same loop over a transport whose
+   conn.Write may fail (Props C16_nonce_unique speaks about that one, C16_no_fault_same ties
+   the two together). *)
 Fixpoint write_loop (fuel : nat) (k : key) (nonce : bytes) (data : bytes) : wres :=
   match fuel with
   | O => {| w_n := 0; w_calls := []; w_sent := []; w_wire := []; w_nonce := nonce; w_panic := false |}
@@ -107,6 +115,75 @@ Fixpoint run_writes (k : key) (nonce : bytes) (ws : list bytes) : list wres :=
   | [] => []
   | d :: r => let w := write k nonce d in
               w :: (if w_panic w then [] else run_writes k (w_nonce w) r)
+  end.
+
+(* ------------------------------------------------------------------ Write over a transport that fails *)
+(* The same loop with the result of every sc.conn.Write taken from a script [outs] (one entry per
+   call, in order; an exhausted script means success, so [outs = []] is the loop above).
+       sc.sendAead.Seal(sealedFrame[:0], sc.sendNonce[:], frame, nil)
+       incrNonce(sc.sendNonce)
+       _, err = sc.conn.Write(sealedFrame)
+       if err != nil { return err }        -> Write returns (n, err), n = the chunks before this one
+   The state after a failed Write: sendNonce has ALREADY moved past the frame whose conn.Write
+   failed; nothing else is remembered (the rest of [data] is dropped, the caller may call Write
+   again on the same connection). *)
+Record wres_t := {
+  wt_n : nat;                       (* bytes accepted *)
+  wt_calls : list seal_call;        (* every call of sendAead.Seal, in order *)
+  wt_wire : list (bytes * cipher * tout);
+                                    (* every sealed frame handed to conn.Write with the nonce it was
+                                       sealed under and what the transport did with it *)
+  wt_nonce : bytes;                 (* sendNonce afterwards *)
+  wt_panic : bool;                  (* incrNonce panicked *)
+  wt_err : bool;                    (* Write returned the transport's error *)
+  wt_outs : list tout               (* the part of the script not yet consumed *)
+}.
+
+Definition wt_stop (nonce : bytes) (outs : list tout) : wres_t :=
+  {| wt_n := 0; wt_calls := []; wt_wire := []; wt_nonce := nonce; wt_panic := false;
+     wt_err := false; wt_outs := outs |}.
+
+Fixpoint write_loop_t (fuel : nat) (k : key) (nonce : bytes) (data : bytes) (outs : list tout)
+  : wres_t :=
+  match fuel with
+  | O => wt_stop nonce outs
+  | S f =>
+    if (0 <? length data)%nat then
+      let chunk := if (data_max_size <? length data)%nat then firstn data_max_size data else data in
+      let rest := if (data_max_size <? length data)%nat then skipn data_max_size data else [] in
+      let frame := mk_frame chunk (pool nonce) in
+      let sealed := seal k nonce frame in
+      let call := {| sl_nonce := nonce; sl_plain := frame; sl_out := sealed |} in
+      match incr_nonce nonce with
+      | None => {| wt_n := 0; wt_calls := [call]; wt_wire := []; wt_nonce := nonce;
+                  wt_panic := true; wt_err := false; wt_outs := outs |}
+      | Some nonce' =>
+        match outs with
+        | TErr m :: outs' =>
+          {| wt_n := 0; wt_calls := [call]; wt_wire := [(nonce, sealed, TErr m)];
+             wt_nonce := nonce'; wt_panic := false; wt_err := true; wt_outs := outs' |}
+        | _ =>
+          let r := write_loop_t f k nonce' rest (tl outs) in
+          {| wt_n := length chunk + wt_n r; wt_calls := call :: wt_calls r;
+             wt_wire := (nonce, sealed, TOk) :: wt_wire r;
+             wt_nonce := wt_nonce r; wt_panic := wt_panic r; wt_err := wt_err r;
+             wt_outs := wt_outs r |}
+        end
+      end
+    else wt_stop nonce outs
+  end.
+
+Definition write_t (k : key) (nonce : bytes) (data : bytes) (outs : list tout) : wres_t :=
+  write_loop_t (S (length data)) k nonce data outs.
+
+(* successive Write calls of one session over such a transport: a panic ends it, a transport
+   error does not (the caller calls Write again on the same SecretConnection) *)
+Fixpoint run_writes_t (k : key) (nonce : bytes) (ws : list bytes) (outs : list tout)
+  : list wres_t :=
+  match ws with
+  | [] => []
+  | d :: r => let w := write_t k nonce d outs in
+              w :: (if wt_panic w then [] else run_writes_t k (wt_nonce w) r (wt_outs w))
   end.
 
 (* ------------------------------------------------------------------ Read *)
@@ -175,6 +252,13 @@ Arguments w_sent {cipher} w.
 Arguments w_wire {cipher} w.
 Arguments w_nonce {cipher} w.
 Arguments w_panic {cipher} w.
+Arguments wt_n {cipher} w.
+Arguments wt_calls {cipher} w.
+Arguments wt_wire {cipher} w.
+Arguments wt_nonce {cipher} w.
+Arguments wt_panic {cipher} w.
+Arguments wt_err {cipher} w.
+Arguments wt_outs {cipher} w.
 
 (* ------------------------------------------------------------------ handshake (symbolic) *)
 
